@@ -1,0 +1,38 @@
+//go:build verif
+// +build verif
+
+package termincommittee
+
+// Verification hooks (build tag "verif"). Add-only, read-only.
+
+import (
+	"github.com/orbs-network/lean-helix-go/services/interfaces"
+	"github.com/orbs-network/lean-helix-go/spec/types/go/primitives"
+)
+
+// VerifLeaderOf exposes the package-private leader function so it can be tabulated directly.
+func VerifLeaderOf(view primitives.View, committeeMembers []interfaces.CommitteeMember) primitives.MemberId {
+	return calcLeaderOfViewAndCommittee(view, committeeMembers)
+}
+
+type VerifTermSnapshot struct {
+	IsPrepared                      bool
+	PreparedView                    primitives.View
+	Committed                       bool
+	LatestViewThatProcessedVCMOrNVM primitives.View
+}
+
+// VerifSnapshot returns a copy of term-internal flags (used for state hashing / cross-checks only).
+func (tic *TermInCommittee) VerifSnapshot() VerifTermSnapshot {
+	v, ok := tic.getPreparedLocally()
+	return VerifTermSnapshot{
+		IsPrepared:                      ok,
+		PreparedView:                    v,
+		Committed:                       tic.committedBlock != nil,
+		LatestViewThatProcessedVCMOrNVM: tic.latestViewThatProcessedVCMOrNVM,
+	}
+}
+
+func (tic *TermInCommittee) VerifCommittee() []interfaces.CommitteeMember {
+	return tic.committeeMembers
+}
